@@ -163,7 +163,13 @@ impl SimNet {
                 return;
             }
         }
-        let lat = *self.link_latency.get(&(from, to)).unwrap_or(&self.latency);
+        // per-link overrides ramp up from the base latency by one round every second round of
+        // the run phase, so that a slow link does not begin with a silence of its full length
+        let lat = match self.link_latency.get(&(from, to)) {
+            Some(&target) if rel >= 0 => target.min(self.latency + rel / 2),
+            Some(_) => self.latency,
+            None => self.latency,
+        };
         let mut fate: Option<Fate> = None;
         for s in &self.scripted {
             if s.from == from && s.to == to && s.round == rel && s.classes & class != 0 {
